@@ -92,10 +92,32 @@ Definition redo F l := flat_map (box_redo F) l.
 Definition exdo F l := flat_map (box_exdo F) l.
 Definition rexdo F l := flat_map (box_rexdo F) l.
 
-(* preacts: (box, index) pairs in [fs] return False during this op *)
-Definition failset := list (nat * nat).
-Definition fails (fs : failset) (b i : nat) : bool :=
-  existsb (fun p => Nat.eqb (fst p) b && Nat.eqb (snd p) i) fs.
+(* What a preact returns.  Box.predo tests "if not preact()": the precondition is met exactly when the value
+   is truthy.  Preacts listed in [fs] return the given value during this op, all others return True. *)
+Inductive pyv :=
+| PTrue | PFalse | PNone
+| PInt (z : Z)            (* 0 is falsy *)
+| PFloat (zero : bool)    (* 0.0 is falsy *)
+| PStr (len : nat)        (* '' is falsy *)
+| PList (len : nat)       (* [] is falsy *)
+| PObj.                   (* a plain object() is truthy *)
+Definition truthy (v : pyv) : bool :=
+  match v with
+  | PTrue | PObj => true
+  | PFalse | PNone => false
+  | PInt z => negb (Z.eqb z 0)
+  | PFloat zero => negb zero
+  | PStr n | PList n => negb (Nat.eqb n 0)
+  end.
+
+Definition failset := list (nat * nat * pyv).
+Fixpoint preact_value (fs : failset) (b i : nat) : pyv :=
+  match fs with
+  | [] => PTrue
+  | (b', i', v) :: fs' => if Nat.eqb b' b && Nat.eqb i' i then v else preact_value fs' b i
+  end.
+(* met := truthy v *)
+Definition fails (fs : failset) (b i : nat) : bool := negb (truthy (preact_value fs b i)).
 
 Fixpoint box_predo_from (fs : failset) (b : nat) (is : list nat) : list ev * bool :=
   match is with
